@@ -840,10 +840,13 @@ class Interp:
             self.block(st.body)
 
     # ----------------------------------------------------------------- entry
-    def run(self, init: Optional[dict[str, Value]] = None) -> Leaf:
+    def run(self, init: Optional[dict[str, Value]] = None, params: Optional[list[str]] = None) -> Leaf:
+        """`params`: canonical parameter names by position (the names the rule's atomizer is written in);
+        a renamed parameter is then transparent to the rule."""
         args = self.fn.args
-        for a in args.posonlyargs + args.args + args.kwonlyargs:
-            self.env[a.arg] = Sym(a.arg)
+        for i, a in enumerate(args.posonlyargs + args.args + args.kwonlyargs):
+            canon = params[i] if params and i < len(params) and params[i] else a.arg
+            self.env[a.arg] = Sym(canon)
         if init:
             self.env.update(init)
         try:
@@ -902,9 +905,10 @@ def tabulate(
     ref: Optional[Callable[[Valuation], Any]] = None,
     feasible: Optional[Callable[[Valuation], bool]] = None,
     init: Optional[dict[str, Value]] = None,
+    params: Optional[list[str]] = None,
 ) -> list[tuple[dict[str, bool], Leaf, Any]]:
     def run(v: Valuation):
-        leaf = Interp(fn, hooks, v).run(init)
+        leaf = Interp(fn, hooks, v).run(init, params)
         r = ref(v) if ref is not None else None
         return (leaf, r)
 
